@@ -7,6 +7,7 @@ import (
 	"fmt"
 	"reflect"
 	"sort"
+	"strings"
 
 	"verif/explore"
 )
@@ -190,7 +191,7 @@ func ColdCapture(names []string, ptrs []interface{}) {
 		case t.Kind() == reflect.Slice:
 			saved := cloneSlice(e)
 			cv.restore = func() { e.Set(cloneSlice(saved)) }
-		case t.Kind() == reflect.Struct && (t.PkgPath() == "sync" || t.PkgPath() == "sync/atomic"):
+		case t.Kind() == reflect.Struct && (t.PkgPath() == "sync" || t.PkgPath() == "sync/atomic" || strings.HasSuffix(t.PkgPath(), "/vsync")):
 			cv.restore = func() { e.Set(reflect.Zero(t)) }
 		default:
 			saved := reflect.New(t).Elem()
